@@ -147,6 +147,7 @@ type record struct {
 	Kind   string `json:"kind"`
 	Bytes  []int  `json:"bytes,omitempty"`
 	Ops    []Op   `json:"ops,omitempty"`
+	Ops2   []Op   `json:"ops2,omitempty"`
 	FmtErr bool   `json:"fmterr,omitempty"`
 	Origin string `json:"origin"`
 	Pieces []int  `json:"pieces,omitempty"` // sizes of the segments (information)
@@ -193,6 +194,9 @@ func (r *record) tla() map[string]any {
 	ops := r.Ops
 	if ops == nil {
 		ops = []Op{}
+	}
+	if r.Kind == "cycle" {
+		return map[string]any{"kind": "cycle", "origin": r.Origin, "ops": ops, "ops2": r.Ops2}
 	}
 	bs := r.Bytes
 	if bs == nil {
@@ -330,7 +334,7 @@ func (c *collector) execOps(origin string, ops, want []Op, realText bool, maxPie
 		}
 		got, serr := scanReal(func() (io.ReadCloser, error) { return page.SegmentsReader(segs), nil }, realText)
 		gotN := normOps(got)
-		ok := serr == nil && equalOps(gotN, want)
+		ok := serr == nil && equalOps(dropRaw(gotN), want) // comments denote nothing
 		if len(cut) == 1 {
 			c.ctx.Ev.Distinct(string(data))
 		}
@@ -357,6 +361,11 @@ func (c *collector) execOps(origin string, ops, want []Op, realText bool, maxPie
 		if len(cut) != 1 {
 			continue
 		}
+		// what the reader returned (operators, and comments as raw content)
+		// written again and read again must be the same
+		if hasRaw(got) || hasRaw(ops) {
+			c.cycle(origin, ops, pair)
+		}
 		// the operators read must not depend on how the source hands over
 		// the bytes: one at a time, in halves, in random chunks, with chunk
 		// boundaries inside every multi-byte token, through a decompressor
@@ -364,7 +373,7 @@ func (c *collector) execOps(origin string, ops, want []Op, realText bool, maxPie
 			got, serr := scanReal(chunkedOpener(data, mode), realText)
 			c.ctx.Ev.Eval(1)
 			gotN := normOps(got)
-			if serr == nil && equalOps(gotN, want) {
+			if serr == nil && equalOps(dropRaw(gotN), want) {
 				continue
 			}
 			s := record{Kind: "scan", Bytes: r.Bytes, Ops: got, Origin: origin, Pieces: cut, Chunks: mode, src: ops, got: gotN, suspect: true, pair: pair, realOnly: ro}
@@ -377,6 +386,70 @@ func (c *collector) execOps(origin string, ops, want []Op, realText bool, maxPie
 			c.add(&s, "")
 		}
 	}
+}
+
+const rawName = "%raw%"
+
+func hasRaw(ops []Op) bool {
+	for _, o := range ops {
+		if o.name() == rawName {
+			return true
+		}
+	}
+	return false
+}
+
+// dropRaw removes the raw content (comment) pseudo operators.
+func dropRaw(ops []Op) []Op {
+	if !hasRaw(ops) {
+		return ops
+	}
+	out := make([]Op, 0, len(ops))
+	for _, o := range ops {
+		if o.name() != rawName {
+			out = append(out, o)
+		}
+	}
+	return out
+}
+
+// cycle: write ops, read (r1), write r1, read (r2): r1 and r2 must be equal,
+// comments included.
+func (c *collector) cycle(origin string, ops []Op, pair int64) {
+	read := func(ops []Op) ([]Op, []byte, error) {
+		real, err := toReal(ops)
+		if err != nil {
+			return nil, nil, err
+		}
+		rc, _ := (&content.Operators{Ops: real}).RawBytes()
+		data, err := io.ReadAll(rc)
+		rc.Close()
+		if err != nil {
+			return nil, data, err
+		}
+		got, err := scanReal(bytesOpener(data), true)
+		return got, data, err
+	}
+	r1, _, err1 := read(ops)
+	if err1 != nil {
+		return // judged elsewhere
+	}
+	r2, data2, err2 := read(r1)
+	c.ctx.Ev.Eval(2)
+	if err2 == nil && equalOps(r1, r2) {
+		return
+	}
+	if r1 == nil {
+		r1 = []Op{}
+	}
+	if r2 == nil {
+		r2 = []Op{}
+	}
+	rec := record{Kind: "cycle", Ops: r1, Ops2: r2, Bytes: c01.Ints(data2), Origin: origin, src: ops, got: r2, suspect: true, pair: pairSeq.Add(1)}
+	if err2 != nil {
+		rec.errText = err2.Error()
+	}
+	c.add(&rec, "")
 }
 
 func traceOpts(ctx *core.Ctx) core.TLCOpts {
@@ -477,7 +550,9 @@ func opsSig(ops []Op) string {
 	var parts []string
 	for _, o := range ops {
 		n := o.name()
-		if _, known := knownOps[n]; !known && n != imageName {
+		if n == rawName {
+			n = "comment"
+		} else if _, known := knownOps[n]; !known && n != imageName {
 			n = "unknown-op"
 		}
 		var as []string
@@ -520,6 +595,9 @@ func classify(r *record) (key, what string) {
 		return "builder/" + strings.Join(r.Calls, "."),
 			fmt.Sprintf("Builder calls %v (pre-2.0=%v): Err after call %d, Close ok=%v, closing operators %v, re-read %v, ApplyOperator refuses at %d - not explained by the Nesting model",
 				r.Calls, r.Pre2, r.ErrAt, r.CloseOK, r.Closing, r.Reread, r.ApplyErr)
+	}
+	if r.Kind == "cycle" {
+		return "cycle/" + opsSig(r.src), fmt.Sprintf("read, write, read is not stable: %s was read as %s, and after writing that (%q) as %s", opsSig(r.src), opsSig(r.Ops), text, opsSig(r.Ops2))
 	}
 	if r.FmtErr {
 		return "writer/error/" + opsSig(r.src), "the content writer fails on " + opsSig(r.src) + ": " + r.errText
@@ -633,6 +711,7 @@ func run(ctx *core.Ctx) error {
 	ctx.Ev.Assume("TLC evaluates ContentOps.tla / PdfSyntax.tla faithfully; RefScanOps is a correct reading of ISO 32000-2 7.8.2 and 8.9.7 " +
 		"(inline image data without /L ends at the first <EOL>EI<non-regular>)")
 	ctx.Ev.Assume("the /L (/Length) entry of an inline image dictionary is framing, not content: operands are compared without it")
+	ctx.Ev.Assume("raw content operators are comments: %, then any bytes but CR and LF, optionally ended by an end-of-line marker; they denote no operator (ISO 32000-2 7.2.4); what the scanner returns for them is only required to be stable under write and read")
 	ctx.Ev.Assume("admissible operators: names of regular characters other than BI/ID/EI and numbers; operands of the native types without indirect references; inline images with /W and /H")
 	ctx.Ev.Assume("inline image data under an ASCII filter (AHx, A85) is generated non-empty and starting with a non-white-space byte: white space is insignificant there and the scanner skips it after ID")
 	ctx.Ev.Assume("the digits of reals are outside the model: float64 operands are decided by == after the round trip on the real code")
@@ -690,7 +769,7 @@ func run(ctx *core.Ctx) error {
 	// seeded random operator sequences and Builder runs
 	rnd := randomOps(ctx)
 	forAll(len(rnd), func(i int) {
-		col.execOps("random", rnd[i], normOps(rnd[i]), false, 3)
+		col.execOps("random", rnd[i], normOps(dropRaw(rnd[i])), false, 3)
 	})
 	rb := randomCalls(ctx)
 	forAll(len(rb), func(i int) {
@@ -764,7 +843,7 @@ func replay(ctx *core.Ctx, raw json.RawMessage) error {
 	col := &collector{ctx: ctx, seen: map[string]bool{}}
 	switch rc.Side {
 	case "ops":
-		col.execOps("replay", rc.Ops, normOps(rc.Ops), !hasTextlessReal(rc.Ops), 3)
+		col.execOps("replay", rc.Ops, normOps(dropRaw(rc.Ops)), !hasTextlessReal(rc.Ops), 3)
 	case "builder":
 		col.execBuilder("replay", rc.Pre2, rc.Calls, nil)
 	case "program":
@@ -776,6 +855,8 @@ func replay(ctx *core.Ctx, raw json.RawMessage) error {
 		switch r.Kind {
 		case "builder":
 			fmt.Printf("  builder: calls %v (segments %v) errat=%d closeok=%v closing=%v reread=%v (segments %v) applyerr=%d %s\n", r.Calls, r.SegLens, r.ErrAt, r.CloseOK, r.Closing, r.Reread, r.RereadLens, r.ApplyErr, r.errText)
+		case "cycle":
+			fmt.Printf("  cycle record: first reading %s, second reading %s\n", opsSig(r.Ops), opsSig(r.Ops2))
 		case "scan":
 			fmt.Printf("  scan record (segments %v, source %q): %q -> %s\n", r.Pieces, r.Chunks, clip(c01.Unints(r.Bytes), 300), opsSig(r.got))
 		default:
